@@ -102,6 +102,12 @@ def alphabet():
         # a struct file of the caller's (other defaults), directly and
         # through the controller
         ("custom", "custom", {"led1": 5, "cpu_clk": 190}, 1028),
+        # spare words of the configuration area are options like any other
+        ("pad", "dict", {"__PAD2": 0x1234, "__PAD3": 7, "hw_ver": 1}, 1028),
+        # one datagram of the boot cannot be sent (start, a block, the end)
+        ("fault0", "send_fault", {"fail_at": 0}, 2048),
+        ("fault2", "send_fault", {"fail_at": 2}, 2048),
+        ("fault3", "send_fault", {"fail_at": 3}, 2048),
         ("mc_custom", "mc_custom", {"mem_clk": 120}, 1028),
     ]
 
@@ -133,6 +139,14 @@ def custom_struct():
                 new = {b"hw_ver": b"9", b"cpu_clk": b"175",
                        b"led0": b"0x00000777"}[t[0]]
                 line = b" ".join([t[0], t[1], t[2], t[3], new])
+            if len(t) >= 5 and t[1] != b"=" and not line.startswith(b"#"):
+                # offsets written in decimal (the file format takes either)
+                t = line.split()
+                try:
+                    line = b" ".join([t[0], t[1],
+                                      str(int(t[2], 0)).encode()] + t[3:])
+                except ValueError:
+                    pass
             out.append(line)
         with open(p, "wb") as f:
             f.write(b"\n".join(out) + b"\n")
@@ -160,8 +174,16 @@ class Capture(object):
         self.sim = sim
         self.boot = []
 
+    fail_at = None
+
     def __call__(self, sock, data, net):
         if sock.addr and sock.addr[1] == 54321:
+            if self.fail_at is not None and len(self.boot) == self.fail_at:
+                # the operating system refuses this one datagram (e.g. a
+                # stale ICMP port-unreachable surfacing on a connected UDP
+                # socket)
+                self.fail_at = None
+                raise ConnectionRefusedError(111, "injected send failure")
             self.boot.append((sock.addr[0], bytes(data)))
             return []
         return self.sim(sock, data, net)
@@ -201,6 +223,13 @@ def do_call(entry, host, cap, net, mods):
                 exc = AssertionError("caller's sv_overrides dict was "
                                      "modified: %r" % given)
             opts = dict(opts["dict"], **opts["kw"])
+        elif how == "send_fault":
+            cap.fail_at = n0 + opts["fail_at"]
+            try:
+                res = bootmod.boot(host, scamp_binary=img, hw_ver=3)
+            finally:
+                cap.fail_at = None
+            opts = {"hw_ver": 3}
         elif how == "custom":
             res = bootmod.boot(host, scamp_binary=img,
                                sark_struct=custom_struct(), **opts)
@@ -284,6 +313,11 @@ def judge_call(entry, dgrams, res, opts, exc, now, acc, case, fresh=None):
     def bad(kind, msg):
         acc.violation(dict(kind=kind, call=name), case, msg,
                       size=len(case.get("hist", [])) * 10)
+    if exc is not None and how == "send_fault" and isinstance(exc, OSError):
+        # the failure was reported to the caller: nothing claimed to be a
+        # complete boot
+        acc.outcome("send_failure_reported")
+        return
     if exc is not None:
         bad("exception", "boot call %r raised %s: %s"
             % (name, type(exc).__name__, exc))
